@@ -135,6 +135,9 @@ def run_cli(case):
         if case.get("url_suffix"):
             for k in ("A", "W", "H"):
                 VALS[k] = [u + case["url_suffix"] for u in VALS[k]]
+        if case.get("url_upper"):       # addresses are opaque text: HTTP://Tracker.Example/ stays as typed on every route
+            for k in ("A", "W", "H"):
+                VALS[k] = [u.split("://", 1)[0].upper() + "://" + u.split("://", 1)[1].title() for u in VALS[k]]
         na = case.get("n_announce", 2)
         ann = VALS["A"][:na]
         want = {"announce": [hexs(x) for x in ann], "urllist": [hexs(x) for x in VALS["W"]],
